@@ -65,8 +65,8 @@ CHECKS = {
    text="SEQUENTIAL SCHEDULE ONLY. Entries symbolic in [-2,2] or [-1,1], shapes up to 3x3 (thorough 3x4), {Rows,Cols} x {One,AnyUnit,Weight(1),Weight(2)}: distinct rows/cols, pivot entries are units, triangular leading block (directly and through perms_by_pivots+permute), no panic.",
    note=S_NOTE + "NOT decided: 'for every interleaving of worker threads' (no schedule-point hook installed; Kani has no threads and cannot pass AHashSet). A fault that needs a foreign commit inside the snapshot-to-write-lock window is invisible to this check.",
    design="5/C11"),
- "C12": dict(engine="S", category="model_checking",
-   technique="concolic symbolic execution of solve_triangular(_left,_vec), inv_triangular, Schur::from_partial_triangular and dir_sum_decomp over symbolic entries in Z, Z[i] and Q (unit diagonal as solver-side precondition), with explicitly stored zeros; A X = Y, S = D - C A^-1 B, F M B = S, F B = I, block-sum identity discharged per class by z3",
+ "C12": dict(engine="K+S", category="model_checking",
+   technique="Kani/CBMC (SAT) on UnionFind (4 symbolic unions on 5 elements vs a label-array reference); concolic symbolic execution of solve_triangular(_left,_vec), inv_triangular, Schur::from_partial_triangular and dir_sum_decomp over symbolic entries in Z, Z[i] and Q (unit diagonal as solver-side precondition), with explicitly stored zeros; A X = Y, S = D - C A^-1 B, F M B = S, F B = I, block-sum identity discharged per class by z3",
    text="Each kernel is called twice per run on the same worker so the thread-local scratch buffer must return to zero (debug assertions are compiled in). Upper and lower, r in 0..3, stored-zero variants, units other than +-1 through Z[i] and Q.",
    note=S_NOTE + "Outside: equality across thread counts; matrices beyond 4x4 (a defect that needs a column with >= 16 entries is out of reach); UnionFind is exercised only through dir_sum_decomp.",
    design="5/C12"),
